@@ -41,6 +41,30 @@ func checkC05(c *core.Ctx) {
 				ch.Bass.N -= 7
 			}
 		}
+		// symbols outside the dictionary (text conv does not look them up) that start with an accidental sign, next to
+		// the same symbols without it: E_b9 and Eb_9 are different chords
+		if i%4 == 1 {
+			odd := []string{"b9", "9", "#5", "5", "♭5", "#11", "11", "b13", "13"}
+			for j := range p.Inst {
+				if ch := p.Inst[j].Chord; ch != nil && r.Intn(2) == 0 {
+					ch.Symbol = odd[r.Intn(len(odd))]
+				}
+			}
+			// and, in one key section, the pairs whose spellings run together: natural degree n with b9 / lowered n
+			// with 9, natural n with #5 / raised n with 5 (which of them meet on one letter depends on the key)
+			n := []int{2, 3, 6, 7}[r.Intn(4)]
+			quad := []model.ChordSpec{
+				{Deg: theory.Interval{N: n, Q: theory.Major}, Symbol: "b9"}, {Deg: theory.Interval{N: n, Q: theory.Minor}, Symbol: "9"},
+				{Deg: theory.Interval{N: n, Q: theory.Major}, Symbol: "#5"}, {Deg: theory.Interval{N: n, Q: theory.Augmented}, Symbol: "5"},
+				{Deg: theory.Interval{N: n, Q: theory.Minor}, Symbol: "#5"}, {Deg: theory.Interval{N: n, Q: theory.Major}, Symbol: "5"},
+				{Deg: theory.Interval{N: n, Q: theory.Augmented}, Symbol: "b9"}, {Deg: theory.Interval{N: n, Q: theory.Major}, Symbol: "9"},
+			}
+			r.Shuffle(len(quad)/2, func(a, b int) { quad[2*a], quad[2*a+1], quad[2*b], quad[2*b+1] = quad[2*b], quad[2*b+1], quad[2*a], quad[2*a+1] })
+			for k := range quad {
+				q := quad[k]
+				p.Inst = append(p.Inst, model.Instance{Chord: &q, Values: []model.Frac{{Num: 1, Den: 1}}})
+			}
+		}
 		start := keys[r.Intn(len(keys))].String()
 		dt, ok1 := p.DegreeTextPiece(model.TextOpts{UnicodeAcc: i%5 == 4})
 		st, ok2 := p.SyllableTextPiece(start, model.TextOpts{UnicodeAcc: i%3 == 2})
@@ -67,7 +91,11 @@ func checkC05(c *core.Ctx) {
 			}
 		}
 		rd := run(c, []byte(dt), "text", "conv", "degree")
-		rs := run(c, []byte(st), "text", "conv", "syllable", "--key", start)
+		sargs := []string{"text", "conv", "syllable", "--key", start}
+		if i%5 == 2 {
+			sargs = append(sargs, "--debug") // log lines on stderr only, the result is the same
+		}
+		rs := run(c, []byte(st), sargs...)
 		c.Eval(2)
 		if infra(c, rd) || infra(c, rs) {
 			return
@@ -131,6 +159,11 @@ func checkC05(c *core.Ctx) {
 			p.Inst[r.Intn(len(p.Inst))].Key = model.RandKey(r)
 		}
 		f1, f2 := model.Flags{Key: k1.String()}, model.Flags{Key: k2.String()}
+		if r.Intn(3) == 0 {
+			// the instrument has no say in the pitches
+			pg := []int{0, 24, 100, 119, 120, 123, 127}[r.Intn(7)]
+			f1.Program, f2.Program = &pg, &pg
+		}
 		if !p.Effective(f1).AllInRange() || !p.Effective(f2).AllInRange() {
 			c.Count("skipped_out_of_range", 1)
 			return
